@@ -104,10 +104,12 @@ public:
       }
     auto catalog(mounted->volume()->root());
 
-    int sectors_used = 2;
+    int sectors_used = catalog.catalog_sectors();
     const std::vector<DFS::CatalogEntry> entries = catalog.entries();
     for (const auto& entry : entries)
       {
+	if (entry.file_length() == 0)
+	  continue;		// an empty file occupies no sectors.
 	assert(entry.file_length() < std::numeric_limits<int>::max());
 	div_t division = div(static_cast<int>(entry.file_length()), DFS::SECTOR_BYTES);
 	const int sectors_for_this_file = division.quot + (division.rem ? 1 : 0);
